@@ -11,8 +11,13 @@ option is switched on), and copy() and a pickle round trip give an automaton of 
 with an identical definition.
 
 What is proved here (about the model, for all inputs):
-  * `freeze_value` (automata/base/utils.py, as of /repo fix 3900daf: tuples are entered) on a
-    model of Python values `PyVal`: the result contains no mutable container for every value
+  * `freeze_value` (automata/base/utils.py, as of /repo fixes 3900daf: tuples are entered, and
+    0014d04 / finding F37: set-like and mapping-like objects that are not builtin sets / dicts —
+    dict views, mappingproxy, UserDict, ChainMap, user `collections.abc` containers — are
+    converted too, and ab97679: so are sequence-like objects that are not lists / tuples —
+    UserList, deque) on a model of Python values `PyVal`: the result contains no mutable container
+    and no live view of one (`C18_freeze_immutable`; `C18_freeze_lookalike_regression` states
+    what the function before 0014d04 violated) for every value
     Python can build (`supported`: dictionary keys and set / frozenset elements are hashable —
     anything else raises `TypeError: unhashable type` before `freeze_value` is reached), has the
     same abstract value, and freezing is idempotent — hence what `Automaton.__init__` stores in
@@ -38,7 +43,9 @@ open AV AV.VA AV.VA.PyVal AV.VA.Obj
 
 /-! ## `freeze_value` -/
 
-/-- After freezing no `dict`, `set` or `list` object is left anywhere inside the value (keys,
+/-- After freezing no `dict`, `set` or `list` object — and no set-like / mapping-like object that
+is not a builtin container (`setlike`: dict views, user `collections.abc.Set` classes; `maplike`:
+mappingproxy, UserDict, ChainMap, user `Mapping` classes; `seqlike`: UserList, deque) — is left anywhere inside the value (keys,
 tuple members and frozenset members included).  `supported` is no restriction on real inputs:
 it says that every dictionary key and every set / frozenset element is hashable (on the model:
 `isFrozen` — an unhashable `dict` / `set` / `list` nowhere inside it), which Python enforces when
@@ -46,7 +53,9 @@ the dict / set / frozenset is *built* (`{[1]: 2}`, `{[1]}`, `frozenset([[1]])`, 
 raise `TypeError: unhashable type`).  Lists, tuples, dict / frozendict values may hold anything
 and nest arbitrarily — in particular a list inside a tuple (the MNTM result
 `('q1', [['1', 'R']])`, the DPDA result `('q1', ['1', '0'])`) is covered since fix 3900daf.
-What the model does not see: a user-defined hashable object (`other`) with mutable content. -/
+What the model does not see: a user-defined hashable object with mutable content that is neither
+a `collections.abc.Set`, a `collections.abc.Mapping` nor a `collections.abc.Sequence` (`other` stands
+for immutable atoms only). -/
 theorem C18_freeze_immutable (v : PyVal) (h : v.supported = true) : (freeze v).isFrozen = true :=
   isFrozen_freeze v h
 
@@ -99,12 +108,15 @@ example : (PyVal.set [.list [.int 1]]).supported = false ∧
     (PyVal.dict [(.tuple [.int 1, .list [.int 2]], .int 3)]).supported = false := ⟨rfl, rfl, rfl, rfl⟩
 
 /-- The regenerated shape of `freeze_value`: which `isinstance` branches exist, in which order,
-and that the dict / set / list-or-tuple branches recurse (the model `PyVal.freeze` mirrors
-exactly this). -/
+and that the dict / set / list-or-tuple / Mapping / non-frozenset Set / non-bytes Sequence branches recurse (the model
+`PyVal.freeze` mirrors exactly this; the abstract base classes are named by what the module
+imports them from, not by their local alias). -/
 theorem C18_freeze_source_shape :
     Gen.Validate.freezeBranches =
       [("str,int", "same"), ("dict", "frozendict+rec"), ("set", "frozenset+rec"),
-       ("list,tuple", "tuple+rec")] := by
+       ("list,tuple", "tuple+rec"), ("collections.abc.Mapping", "frozendict+rec"),
+       ("collections.abc.Set&!frozenset", "frozenset+rec"),
+       ("collections.abc.Sequence&!bytes", "tuple+rec")] := by
   decide
 
 /-- Non-vacuity: an MNTM-style transition table written with nested lists
@@ -132,6 +144,150 @@ example :
     freeze (.dict [(.str "q", .dict [(.str "", .set [.str "p"]), (.str "a", .set [])])]) =
       .frozendict [(.str "q", .frozendict [(.str "", .frozenset [.str "p"]), (.str "a", .frozenset [])])] :=
   rfl
+
+/-! ### look-alike containers (finding F37, /repo fix 0014d04)
+
+`freezeOld` is `freeze_value` as it was before the repair: the same function without the last two
+`isinstance` tests (three as of fix ab97679, which added the `Sequence` test the same way), so a
+set-like / mapping-like / sequence-like object that is not a builtin container falls through to
+`return value` — stored BY REFERENCE — at the top level and at every nesting level
+the recursion reaches. -/
+
+mutual
+/-- `freeze_value` before fix 0014d04. -/
+def freezeOld : PyVal → PyVal
+  | .str s => .str s
+  | .int i => .int i
+  | .dict kvs => .frozendict (freezeOldKVs kvs)
+  | .frozendict kvs => .frozendict (freezeOldKVs kvs)
+  | .set xs => .frozenset (freezeOldList xs)
+  | .list xs => .tuple (freezeOldList xs)
+  | .tuple xs => .tuple (freezeOldList xs)
+  | .frozenset xs => .frozenset xs
+  | .other t => .other t
+  | .setlike xs => .setlike xs                          -- `return value`
+  | .maplike kvs => .maplike kvs                        -- `return value`
+  | .seqlike xs => .seqlike xs                          -- `return value` (until fix ab97679)
+def freezeOldList : List PyVal → List PyVal
+  | [] => []
+  | x :: xs => freezeOld x :: freezeOldList xs
+def freezeOldKVs : List (PyVal × PyVal) → List (PyVal × PyVal)
+  | [] => []
+  | (k, v) :: t => (k, freezeOld v) :: freezeOldKVs t
+end
+
+/-- `fin.keys()` for `fin = {1: None}` (the `final_states` argument of finding F37) and the
+transition table of the same DFA wrapped in `types.MappingProxyType`, rows included. -/
+def exKeysView : PyVal := .setlike [.int 1]
+def exProxyTable : PyVal :=
+  .maplike [(.int 0, .maplike [(.str "a", .int 1)]), (.int 1, .maplike [(.str "a", .int 1)])]
+
+/-- The regression, stated explicitly.  For the OLD function there is a value Python can build
+(`supported`) whose image is not immutable — the keys view of a dictionary is returned as it is, a
+live window onto the caller's dict, at the top level and equally inside a builtin container the
+function does enter (`{0: proxy}`, `[view]`) — whereas for the function as it is now no such value
+exists.  (The old function differs from the new one ONLY on values holding such a look-alike:
+`C18_freezeOld_eq_freeze`.) -/
+theorem C18_freeze_lookalike_regression :
+    (∃ v : PyVal, v.supported = true ∧ (freezeOld v).isFrozen = false) ∧
+    (¬ ∃ v : PyVal, v.supported = true ∧ (freeze v).isFrozen = false) := by
+  refine ⟨⟨exKeysView, by decide, by decide⟩, ?_⟩
+  rintro ⟨v, hs, hf⟩
+  rw [isFrozen_freeze v hs] at hf
+  exact Bool.noConfusion hf
+
+mutual
+/-- No look-alike container at any position `freeze_value` reaches (the values of dicts, the
+members of sets, lists and tuples; frozensets and keys are not entered). -/
+def reachesNoLookalike : PyVal → Bool
+  | .str _ => true
+  | .int _ => true
+  | .other _ => true
+  | .frozenset _ => true
+  | .dict kvs => reachesNoLookalikeKVs kvs
+  | .frozendict kvs => reachesNoLookalikeKVs kvs
+  | .set xs => reachesNoLookalikeList xs
+  | .list xs => reachesNoLookalikeList xs
+  | .tuple xs => reachesNoLookalikeList xs
+  | .setlike _ => false
+  | .maplike _ => false
+  | .seqlike _ => false
+def reachesNoLookalikeList : List PyVal → Bool
+  | [] => true
+  | x :: xs => reachesNoLookalike x && reachesNoLookalikeList xs
+def reachesNoLookalikeKVs : List (PyVal × PyVal) → Bool
+  | [] => true
+  | (_, v) :: t => reachesNoLookalike v && reachesNoLookalikeKVs t
+end
+
+mutual
+/-- The repair changed nothing else: on every value in which the function meets no look-alike
+container, the old and the new `freeze_value` return the same. -/
+theorem C18_freezeOld_eq_freeze : ∀ v : PyVal, reachesNoLookalike v = true → freezeOld v = freeze v
+  | .str _, _ => rfl
+  | .int _, _ => rfl
+  | .other _, _ => rfl
+  | .frozenset _, _ => rfl
+  | .dict kvs, h => by
+      simp only [reachesNoLookalike] at h; simp only [freezeOld, freeze, freezeOldKVs_eq kvs h]
+  | .frozendict kvs, h => by
+      simp only [reachesNoLookalike] at h; simp only [freezeOld, freeze, freezeOldKVs_eq kvs h]
+  | .set xs, h => by
+      simp only [reachesNoLookalike] at h; simp only [freezeOld, freeze, freezeOldList_eq xs h]
+  | .list xs, h => by
+      simp only [reachesNoLookalike] at h; simp only [freezeOld, freeze, freezeOldList_eq xs h]
+  | .tuple xs, h => by
+      simp only [reachesNoLookalike] at h; simp only [freezeOld, freeze, freezeOldList_eq xs h]
+  | .setlike _, h => by simp [reachesNoLookalike] at h
+  | .maplike _, h => by simp [reachesNoLookalike] at h
+  | .seqlike _, h => by simp [reachesNoLookalike] at h
+theorem freezeOldList_eq : ∀ xs : List PyVal, reachesNoLookalikeList xs = true →
+    freezeOldList xs = freezeList xs
+  | [], _ => rfl
+  | x :: xs, h => by
+      simp only [reachesNoLookalikeList, Bool.and_eq_true] at h
+      simp only [freezeOldList, freezeList, C18_freezeOld_eq_freeze x h.1, freezeOldList_eq xs h.2]
+theorem freezeOldKVs_eq : ∀ kvs : List (PyVal × PyVal), reachesNoLookalikeKVs kvs = true →
+    freezeOldKVs kvs = freezeKVs kvs
+  | [], _ => rfl
+  | (k, v) :: t, h => by
+      simp only [reachesNoLookalikeKVs, Bool.and_eq_true] at h
+      simp only [freezeOldKVs, freezeKVs, C18_freezeOld_eq_freeze v h.1, freezeOldKVs_eq t h.2]
+end
+
+/-- The witnesses of the finding and what the two functions make of them: the keys view and the
+proxied table are kept by the old function and converted by the new one; a view placed inside a
+dict / list the old function does enter is kept as well. -/
+example :
+    exKeysView.supported = true ∧ freezeOld exKeysView = exKeysView ∧
+      (freezeOld exKeysView).isFrozen = false ∧
+      freeze exKeysView = .frozenset [.int 1] ∧ (freeze exKeysView).isFrozen = true ∧
+    exProxyTable.supported = true ∧ freezeOld exProxyTable = exProxyTable ∧
+      (freezeOld exProxyTable).isFrozen = false ∧
+      freeze exProxyTable =
+        .frozendict [(.int 0, .frozendict [(.str "a", .int 1)]), (.int 1, .frozendict [(.str "a", .int 1)])] ∧
+      (freeze exProxyTable).isFrozen = true ∧
+    (freezeOld (.dict [(.int 0, exKeysView)])).isFrozen = false ∧
+      (freeze (.dict [(.int 0, exKeysView)])).isFrozen = true ∧
+    (freezeOld (.list [exProxyTable])).isFrozen = false ∧
+      (freeze (.list [exProxyTable])).isFrozen = true ∧
+    -- a `collections.UserList` of MNTM results (fix ab97679): kept by the old function, a tuple now
+    (freezeOld (.dict [(.tuple [.str "1"], .seqlike [.tuple [.str "q1", .list [.list [.str "1", .str "R"]]]])])).isFrozen = false ∧
+      freeze (.dict [(.tuple [.str "1"], .seqlike [.tuple [.str "q1", .list [.list [.str "1", .str "R"]]]])]) =
+        .frozendict [(.tuple [.str "1"], .tuple [.tuple [.str "q1", .tuple [.tuple [.str "1", .str "R"]]]])] ∧
+    -- an items view whose members are unhashable tuples: `{1: [2]}.items()`
+    (PyVal.setlike [.tuple [.int 1, .list [.int 2]]]).supported = true ∧
+      freeze (.setlike [.tuple [.int 1, .list [.int 2]]]) = .frozenset [.tuple [.int 1, .tuple [.int 2]]] :=
+  ⟨rfl, rfl, rfl, rfl, rfl, rfl, rfl, rfl, rfl, rfl, rfl, rfl, rfl, rfl, rfl, rfl, rfl, rfl⟩
+
+/-- What the constructor stored before the repair: in the default configuration the attribute
+`final_states` of finding F37 was the caller's view itself. -/
+example :
+    (List.map (fun kv : String × PyVal => (kv.1, freezeOld kv.2)) [("final_states", exKeysView)]) =
+      [("final_states", exKeysView)] ∧
+    (∀ kv ∈ storeKwargs false [("final_states", exKeysView)], kv.2.isFrozen = true) := by
+  refine ⟨rfl, ?_⟩
+  decide
 
 /-! ## what the constructor stores -/
 
